@@ -588,7 +588,9 @@ func gen(seed uint64, tier string) {
 		for _, e := range exps {
 			f := math.Ldexp(1, e)
 			for c := 0; c < nf; c++ {
-				cls, ps, tol := smoothCase(r, 120+40*c)
+				// sizes stay at or below 208 vertices: at 2^-520 and below findIntersection underflows, the guard backs
+				// off almost everywhere and a run costs ~n^3 (360 vertices: 2.3 s, over the 2 s watchdog)
+				cls, ps, tol := smoothCase(r, 120+40*(c%2)+8*(c/2))
 				emit(cls+"@far", tol*f, geom.LineString(scalePts(toPath(ps), f)))
 				gp := gpLine(r, 12+r.Intn(30))
 				emit("gp@far", []float64{1.5, 3.5, 7.5, 12}[r.Intn(4)]*f, geom.LineString(scalePts(toPath(gp), f)))
